@@ -90,7 +90,7 @@ def gen_locations(tier, rnd):
         ops = []
         for _k in range(rnd.randint(0, 7)):
             op = rnd.choice(["cell", "set", "line", "line", "sheet", "column", "copy"])
-            k = rnd.choice([0, 1, 1, 2, 3, 9, 10, 99, 100, 12345]) if op != "line" else rnd.choice([0, 1, 1, 1, 2, 8, 9, 10, 98, 99, 999])
+            k = rnd.choice([0, 1, 1, 2, 3, 9, 10, 99, 100, 4321]) if op != "line" else rnd.choice([0, 1, 1, 1, 2, 8, 9, 10, 98, 99, 999])
             ops.append([op, k])
         yield {"kind": "location", "path": rnd.choice(LOC_PATHS), "flags": flags, "ops": ops}
 
